@@ -300,14 +300,27 @@ fn run_case(seed: u64, idx: u64) -> CaseOut {
                 finite_nonneg(&d, "after progress", &feats, &w, &replay)?;
                 check_eta(&d, len, false, &feats, &w, &replay)?;
                 d.advance(rng.range(1, 100) * MS);
-                if rng.chance(1, 2) {
-                    d.pb.finish();
-                } else {
+                let abandoned = rng.chance(1, 2);
+                if abandoned {
                     d.pb.abandon();
+                } else {
+                    d.pb.finish();
                 }
                 d.advance(rng.range(1, 100) * MS);
-                finite_nonneg(&d, "after finishing", &feats, &w, &replay)?;
+                let ps = finite_nonneg(&d, "after finishing", &feats, &w, &replay)?;
                 check_eta(&d, len, true, &feats, &w, &replay)?;
+                // an abandoned bar has seen nothing but the recorded steps: its rate stays within the largest
+                // rate observed (after finish() the position jumps to the length, which is a step of its own)
+                let max_rate = segs.iter().map(|sg| sg.steps as f64 * 1000.0 / sg.gap_ms.max(1) as f64).fold(0.0f64, f64::max);
+                if abandoned && ps > max_rate * (1.0 + 1e-9) {
+                    return Err(viol(
+                        "rate-above-largest-observed",
+                        feats,
+                        format!("per_sec() = {ps} on an abandoned bar at position {} of {len:?} after {:?}: the largest rate ever observed was {max_rate}", d.pb.position(), d.pb.elapsed()),
+                        w,
+                        replay.clone(),
+                    ));
+                }
                 co.count("corner_histories", 1);
             }
         }
